@@ -43,6 +43,9 @@ Sources (pinned tree, /repo/src):
   (`subsensitivity_sptrs[s] = subsensitivity_sptrs[0]`, `reset`, `clone`) on a small heap, since the members survive from one
   `set_up` to the next.
 
+* the public setters of the three classes and the flag `already_set_up` (section "The public setters and `already_set_up`" with the
+  source lines in its table): `Obj`, `Obj.set`, `setUpMembers` / `Obj.setUp`, `Obj.answer`.
+
 The model is written once for an arbitrary carrier `K` with the usual operations; the driver runs it at
 `Rat` (exact; every float printed by the harness is a dyadic rational) and, where `log` is needed, at
 `Float`; the theorems (Proofs*.lean / Props.lean) instantiate `K` with an ordered field / `ℝ`.
@@ -611,5 +614,256 @@ def St.afterSetUp (sameProj recompute : Bool) (numSubsets : Nat) (g g2 : Bool) :
   if recompute then
     (List.replicate numSubsets Req.sensitivity).foldl (fun s r => (step sameProj s r).getD s) (St.afterSetUpBefore g g2)
   else St.afterSetUpBefore g g2
+
+/-! ## The public setters and `already_set_up`
+
+`GeneralisedObjectiveFunction::already_set_up` (GeneralisedObjectiveFunction.h:319, `false` in the constructor :87) is set by
+`PoissonLogLikelihoodWithLinearModelForMean::set_up` on success (cxx:327) and nowhere else to `true`; it is *not* reset when
+`set_up` starts, so a `set_up` that fails leaves it as it was.  The requests that test it (`error("Need to call set_up() …")`):
+`compute_sub_gradient` (GeneralisedObjectiveFunction.cxx:132), `compute_objective_function_without_penalty(·, subset)` (:230; every
+value function goes through it), `add_multiplication_with_approximate_sub_Hessian_without_penalty` (:261) and
+`add_multiplication_with_approximate_sub_Hessian` (:286), `accumulate_sub_Hessian_times_input_without_penalty` (:419; every Hessian
+product goes through it), `compute_sub_gradient_without_penalty` / `…_plus_sensitivity`
+(PoissonLogLikelihoodWithLinearModelForMean.cxx:337, :347).  Public members that do NOT test it: `get_subset_sensitivity`,
+`get_sensitivity` (cxx:122, :129: the images cached by the last `set_up`), `add_subset_sensitivity`
+(PoissonLogLikelihoodWithLinearModelForMeanAndProjData.cxx:864) and `actual_compute_subset_gradient_without_penalty` (:730; public in
+the header of the proj-data class) — both computed from the members as they are at the time of the call.
+
+Every public setter is transcribed below with the condition under which it resets the flag (the "setter table"):
+
+| setter | `already_set_up` afterwards | source |
+|---|---|---|
+| `set_num_subsets(n)` | `&& (num_subsets == n)`, compared BEFORE `num_subsets = max(n, 1)` | ProjData.cxx:402-403 |
+| `set_proj_data_sptr`, `set_input_data`, `set_additive_proj_data_sptr`, `set_normalisation_sptr`, `set_projector_pair_sptr` | `false` (also for the pointer the object already holds) | :411, :485, :445, :477, :453 |
+| `set_max_segment_num_to_process(m)`, `set_max_timing_pos_num_to_process(m)` | `&& (member == m)`; the "is default" mark is cleared | :419-421, :428-430 |
+| `set_zero_seg0_end_planes(b)`, `set_frame_num(k)`, `set_frame_definitions(d)` | `&& (member == argument)` | :437, :461, :469 |
+| `set_use_subset_sensitivities(b)` | `&& (member == b)` | Mean.cxx:159 |
+| `set_sensitivity_filename`, `set_subsensitivity_filenames`, `set_subset_sensitivity_sptr` | `false` | Mean.cxx:91, :99, :168 |
+| `set_recompute_sensitivity(b)` | unchanged | Mean.cxx:145 |
+| `set_prior_sptr(p)` | unchanged ("You should call set_up() again": the prior refuses by itself when it is not set up, GeneralisedPrior.cxx:86) | GeneralisedObjectiveFunction.cxx:97 |
+| `parse(…)` (ParsingObject.cxx:67 → `post_processing`) | `false` (since fix C05-3; before, the reset at the end of `post_processing` was commented out) | Mean.cxx `post_processing` |
+
+Shared pointers, strings and the frame definitions are represented by an identity (`Nat`; `0`: null pointer / empty string; equal
+identities = the same object resp. equal values): the setters only store them (`frame_defs == arg` compares values). -/
+
+/-- the members the public setters write -/
+structure Members where
+  numSubsets : Int
+  projData : Nat
+  additive : Nat
+  norm : Nat
+  projPair : Nat
+  maxSeg : Int
+  /-- `max_segment_num_to_process_is_default`: the value was put there by `set_up` for the setting `-1` -/
+  maxSegDefault : Bool
+  maxTof : Int
+  maxTofDefault : Bool
+  zeroEnd : Bool
+  useSubsetSens : Bool
+  recompute : Bool
+  totName : Nat
+  subName : Nat
+  frameNum : Int
+  frameDefs : Nat
+  prior : Nat
+  deriving DecidableEq, Repr
+
+/-- `set_defaults` of the three classes (GeneralisedObjectiveFunction.cxx:40-45, Mean.cxx:40-49, ProjData.cxx:88-136); the default
+    normalisation object (a `TrivialBinNormalisation`), projector pair and frame definitions (one frame) get the identity `1` -/
+def Members.defaults : Members :=
+  { numSubsets := 1, projData := 0, additive := 0, norm := 1, projPair := 1, maxSeg := -1, maxSegDefault := false, maxTof := -1,
+    maxTofDefault := false, zeroEnd := false, useSubsetSens := true, recompute := false, totName := 0, subName := 0, frameNum := 1,
+    frameDefs := 1, prior := 0 }
+
+/-- the public setters (and `parse` of a parameter text with the keys "zero end planes of segment 0" and "maximum absolute segment
+    number to process") -/
+inductive Setter where
+  | numSubsets (n : Int)
+  | projData (p : Nat)
+  | inputData (p : Nat)
+  | additive (p : Nat)
+  | normalisation (p : Nat)
+  | projectorPair (p : Nat)
+  | maxSegment (m : Int)
+  | maxTof (m : Int)
+  | zeroEndPlanes (b : Bool)
+  | useSubsetSens (b : Bool)
+  | recomputeSens (b : Bool)
+  | sensFilename (s : Nat)
+  | subsensFilenames (s : Nat)
+  | subsetSensSptr (subset : Nat) (p : Nat)
+  | frameNum (k : Int)
+  | frameDefs (d : Nat)
+  /-- `ready`: the prior object has been set up (by whoever) -/
+  | prior (p : Nat) (ready : Bool)
+  | parseKeys (zeroEnd : Bool) (maxSeg : Int)
+  deriving DecidableEq, Repr
+
+/-- the objective function object as far as the setters, `set_up` and the guard of the requests are concerned -/
+structure Obj where
+  m : Members
+  /-- `already_set_up` -/
+  already : Bool
+  /-- ghost: the members as the last successful `set_up` left them — what the cached sensitivities were computed for and the
+      projectors set up with -/
+  snap : Option Members
+  /-- ghost: the prior object held is set up (`GeneralisedPrior::_already_set_up`) -/
+  priorReady : Bool
+  /-- ghost: `set_subset_sensitivity_sptr` has replaced a cached image since the last `set_up` -/
+  sensReplaced : Bool
+  deriving DecidableEq, Repr
+
+/-- a newly constructed object -/
+def Obj.new : Obj := { m := Members.defaults, already := false, snap := none, priorReady := false, sensReplaced := false }
+
+/-- `std::max(new_num_subsets, 1)` -/
+def clampSubsets (n : Int) : Int := if n < 1 then 1 else n
+
+/-- one setter call, line by line as in the sources quoted in the table above -/
+def Obj.set (o : Obj) : Setter → Obj
+  | .numSubsets n =>
+    { o with already := o.already && (o.m.numSubsets == n), m := { o.m with numSubsets := clampSubsets n } }
+  | .projData p => { o with already := false, m := { o.m with projData := p } }
+  | .inputData p => { o with already := false, m := { o.m with projData := p } }
+  | .additive p => { o with already := false, m := { o.m with additive := p } }
+  | .normalisation p => { o with already := false, m := { o.m with norm := p } }
+  | .projectorPair p => { o with already := false, m := { o.m with projPair := p } }
+  | .maxSegment k =>
+    { o with already := o.already && (o.m.maxSeg == k), m := { o.m with maxSeg := k, maxSegDefault := false } }
+  | .maxTof k =>
+    { o with already := o.already && (o.m.maxTof == k), m := { o.m with maxTof := k, maxTofDefault := false } }
+  | .zeroEndPlanes b => { o with already := o.already && (o.m.zeroEnd == b), m := { o.m with zeroEnd := b } }
+  | .useSubsetSens b => { o with already := o.already && (o.m.useSubsetSens == b), m := { o.m with useSubsetSens := b } }
+  | .recomputeSens b => { o with m := { o.m with recompute := b } }
+  | .sensFilename s => { o with already := false, m := { o.m with totName := s } }
+  | .subsensFilenames s => { o with already := false, m := { o.m with subName := s } }
+  | .subsetSensSptr _ _ => { o with already := false, sensReplaced := true }
+  | .frameNum k => { o with already := o.already && (o.m.frameNum == k), m := { o.m with frameNum := k } }
+  | .frameDefs d => { o with already := o.already && (o.m.frameDefs == d), m := { o.m with frameDefs := d } }
+  | .prior p ready => { o with priorReady := ready, m := { o.m with prior := p } }
+  -- `parse`: the parser writes the members of the keys it finds; `post_processing` (ProjData.cxx:175-278) clears the two "is default"
+  -- marks and rebuilds the one-frame definitions (no frame definition file); since fix C05-3 the flag is reset
+  -- (`PoissonLogLikelihoodWithLinearModelForMean::post_processing`)
+  | .parseKeys z k =>
+    { o with already := false,
+             m := { o.m with zeroEnd := z, maxSeg := k, maxSegDefault := false, maxTofDefault := false, frameDefs := 1 } }
+
+/-- facts about the objects the members point to; they do not change during a history -/
+structure Data where
+  /-- `get_max_segment_num()` / `get_max_tof_pos_num()` of the projection data with this identity -/
+  segMax : Nat → Int
+  tofMax : Nat → Int
+  /-- `get_num_frames()` of the frame definitions with this identity -/
+  numFrames : Nat → Int
+
+/-- what one call of `set_up` finds outside the members -/
+structure Call where
+  /-- `subsets_are_approximately_balanced()` for the members as they are when it is called (Mean.cxx:275) with the target of this call -/
+  balanced : Members → Bool
+  /-- `is_null_ptr(subsensitivity_sptrs[0])` after the `resize` (Mean.cxx:179-183) -/
+  sub0Null : Bool
+  /-- the sensitivity file(s) named can be read and fit the target (Mean.cxx:205-264) -/
+  filesOK : Bool
+
+/-- no file name for the kind of sensitivity in use (Mean.cxx:184-185) -/
+def Members.noName (m : Members) : Bool := if m.useSubsetSens then m.subName == 0 else m.totName == 0
+
+/-- Mean.cxx:181-190: `recompute_sensitivity` off, no image in `subsensitivity_sptrs[0]` and no file name → the member is switched on -/
+def suRecompute (w : Call) (m : Members) : Members :=
+  if !m.recompute && (w.sub0Null && m.noName) then { m with recompute := true } else m
+
+/-- ProjData.cxx:600-604: `-1`, or a value an earlier `set_up` derived from `-1`, stands for all segments of the data -/
+def suSeg (d : Data) (m : Members) : Members :=
+  if m.maxSeg == -1 || m.maxSegDefault then { m with maxSeg := d.segMax m.projData, maxSegDefault := true } else m
+
+/-- ProjData.cxx:613-617: likewise for the TOF bins -/
+def suTof (d : Data) (m : Members) : Members :=
+  if m.maxTof == -1 || m.maxTofDefault then { m with maxTof := d.tofMax m.projData, maxTofDefault := true } else m
+
+/-- the members after `PoissonLogLikelihoodWithLinearModelForMean::set_up` (Mean.cxx:174-329, `set_up_before_sensitivity`
+    ProjData.cxx:592-722) and whether it succeeded; a failing `set_up` keeps the members it has changed before the failure
+    (the sensitivity file name "1" and a failure while writing the sensitivity files are not modelled) -/
+def setUpMembers (d : Data) (w : Call) (m : Members) : Bool × Members :=
+  -- GeneralisedObjectiveFunction.cxx:72-76
+  if m.numSubsets ≤ 0 then (false, m) else
+  let m1 := suRecompute w m
+  -- Mean.cxx:202-264: read from file
+  if !m1.recompute && (m1.noName || !w.filesOK) then (false, m1) else
+  -- ProjData.cxx:595
+  if m1.projData == 0 then (false, m1) else
+  -- :600-610
+  let m2 := suSeg d m1
+  if m2.maxSeg > d.segMax m2.projData then (false, m2) else
+  -- :613-623
+  let m3 := suTof d m2
+  if m3.maxTof > d.tofMax m3.projData then (false, m3) else
+  -- :633, :664
+  if m3.projPair == 0 then (false, m3) else
+  if m3.recompute && m3.norm == 0 then (false, m3) else
+  -- :709-719
+  if m3.frameNum ≤ 0 then (false, m3) else
+  if m3.frameNum > d.numFrames m3.frameDefs then (false, m3) else
+  -- Mean.cxx:275
+  if !w.balanced m3 && !m3.useSubsetSens then (false, m3) else
+  (true, m3)
+
+/-- `set_up`: on success the flag is set (Mean.cxx:327), the prior held has been set up (GeneralisedObjectiveFunction.cxx:69) and the
+    sensitivities are those of the members; on failure the flag stays as it was -/
+def Obj.setUp (d : Data) (w : Call) (o : Obj) : Bool × Obj :=
+  let r := setUpMembers d w o.m
+  if r.1 then (true, { m := r.2, already := true, snap := some r.2, priorReady := o.priorReady || r.2.prior != 0, sensReplaced := false })
+  else (false, { o with m := r.2 })
+
+/-- the public requests -/
+inductive PReq where
+  /-- tested against `already_set_up`; `pen`: through the penalised function (`compute_objective_function`,
+      `compute_sub_gradient`, `accumulate_sub_Hessian_times_input`, `add_multiplication_with_approximate_sub_Hessian`), which then asks the prior -/
+  | guarded (r : Req) (pen : Bool)
+  /-- `add_subset_sensitivity`, `actual_compute_subset_gradient_without_penalty`: no test, computed from the members as they are -/
+  | addSubsetSens
+  | actualGradient
+  /-- `get_subset_sensitivity`, `get_sensitivity`: no test, the cached images -/
+  | getSubsetSens
+  | getSens
+  deriving DecidableEq, Repr
+
+/-- what an answered request is computed from: the members at the time of the request and, as ghost, the members the cached state
+    (sensitivities, projector set-up) was made for -/
+structure Basis where
+  live : Members
+  cachedFor : Option Members
+  deriving DecidableEq, Repr
+
+/-- does the objective function answer the request (`none`: "Need to call set_up() for objective function first", or the prior's
+    "The prior should already be set-up"), and from what -/
+def Obj.answer (o : Obj) : PReq → Option Basis
+  | .guarded r pen =>
+    if !o.already then none
+    -- `gps` has no penalised form; a null prior (or penalisation factor 0: `prior_is_zero`) is not asked
+    else if pen && r != Req.gradient true && o.m.prior != 0 && !o.priorReady then none
+    else some { live := o.m, cachedFor := o.snap }
+  | _ => some { live := o.m, cachedFor := o.snap }
+
+/-- the members that enter the quantities: everything but the two "is default" marks (they only matter to the next `set_up`),
+    `recompute_sensitivity` (where the sensitivities come from, not what they are) and the prior (the penalised functions ask the
+    prior object itself) -/
+def Members.core (m : Members) : Members :=
+  { m with maxSegDefault := false, maxTofDefault := false, recompute := false, prior := 0 }
+
+/-- an event of a history: a setter call or a `set_up` (with what the world answers at that moment) -/
+inductive Event where
+  | set (s : Setter)
+  | setUp (w : Call)
+
+def Obj.step (d : Data) (o : Obj) : Event → Obj
+  | .set s => o.set s
+  | .setUp w => (o.setUp d w).2
+
+def Obj.run (d : Data) (o : Obj) (h : List Event) : Obj := h.foldl (Obj.step d) o
+
+/-- the history contains no `parse` -/
+def Event.noParse : Event → Bool
+  | .set (.parseKeys _ _) => false
+  | _ => true
 
 end StirVerif.C05
